@@ -334,8 +334,21 @@ namespace BitSerializer::Csv::Detail
 		return false;
 	}
 
+	Convert::Utf::EncodedStreamReadResult CCsvStreamReader::ReadNextChunk()
+	{
+		const auto result = mEncodedStreamReader.ReadChunk(mDecodedBuffer);
+		// An I/O error must not be taken for the end of file
+		if (result == Convert::Utf::EncodedStreamReadResult::EndFile && mEncodedStreamReader.IsFailed()) {
+			throw SerializationException(SerializationErrorCode::InputOutputError, "Failed to read from the input stream");
+		}
+		return result;
+	}
+
 	bool CCsvStreamReader::ParseNextLine(std::vector<CValueMeta>& out_values)
 	{
+		if (mEncodedStreamReader.IsFailed()) {
+			throw SerializationException(SerializationErrorCode::InputOutputError, "Failed to read from the input stream");
+		}
 		if (IsEnd())
 		{
 			return false;
@@ -362,7 +375,7 @@ namespace BitSerializer::Csv::Detail
 			{
 				if (mCurrentPos == mDecodedBuffer.size())
 				{
-					const auto result = mEncodedStreamReader.ReadChunk(mDecodedBuffer);
+					const auto result = ReadNextChunk();
 					if (result == Convert::Utf::EncodedStreamReadResult::Success) {
 						continue;
 					}
@@ -422,7 +435,7 @@ namespace BitSerializer::Csv::Detail
 		// When entire buffer has been parsed, need to read next chunk for detect end of file
 		if (mCurrentPos == mDecodedBuffer.size())
 		{
-			mEncodedStreamReader.ReadChunk(mDecodedBuffer);
+			ReadNextChunk();
 		}
 
 		return !out_values.empty();
